@@ -46,6 +46,7 @@ type Profile struct {
 	PSiblings     int  // % of top-level structs given a catching string field whose test usually fails, next to a slice or struct field with at least two tests
 	PRewrite      int  // % of slices of strings whose item schema rewrites items in place (Catch over a failing test, Default over a zero item) under a slice test about the contents
 	PFalsy        int  // % of non-string primitive leaves given a falsy but present input (0, 0.0, false, the zero time)
+	PBlankCo      int  // % of constant string coercers that return a blank (absent-looking) string
 	PLongOneOf    int  // % of built-in tests on strings and numbers that are a OneOf over a long list with no custom message
 	NilBias       bool // whole inputs are re-drawn (up to 10 times) until the implementation reports no issues
 	Repeats       int  // how many times a case is re-run (with reshuffled schema insertion orders and varying pool states)
@@ -306,6 +307,9 @@ func (g *Gen) prim(kind string) *Node {
 		if g.R.P(70) {
 			n.Coercer = "const"
 			l := g.leaf(kind)
+			if kind == KString && g.P.PBlankCo > 0 && g.R.P(g.P.PBlankCo) {
+				l.S = Pick(g.R, []string{"", " ", "\t"})
+			}
 			n.CoerceTo = &l
 		} else {
 			n.Coercer = "err"
@@ -655,6 +659,19 @@ func ProfileByName(name string) Profile {
 		p.PLayout = 50
 		p.PPrefill = 50
 		p.PExtra = 60
+	case "C17c":
+		// WithCoercer on every kind of schema object: on primitives, through pointers (the option given to the pointer),
+		// next to a Catch, returning absent-looking values
+		p.PAbsent = 12
+		p.PWrongType = 5
+		p.PTests = 40
+		p.PCatch = 40
+		p.PCoercer = 45
+		p.PBlankCo = 25
+		p.PPtr = 35
+		p.PGlobal = 15
+		p.PLayout = 50
+		p.PPrefill = 50
 	case "C08":
 		p.PTopSlice = 25
 		p.PPT = 10
